@@ -319,6 +319,9 @@ class _Halting(object):
   def __set__(self, obj, val):
     def act():
       obj.__dict__["_c17_halting"] = val
+      if val:
+        e = obj.__dict__["_c17_env"]
+        e.events.append(["halt", e.players.index(obj)])
     obj.__dict__["_c17_env"].sched.op("halting_write", act)
 
 
